@@ -211,17 +211,31 @@ pub struct BfsStats {
 /// dedup on the full key. `judge` is called on every transition (also the ones
 /// leading to already-seen states). States produced by a panicking op are not expanded.
 /// `expand(post)` may veto expansion (e.g. ill-formed states).
-pub fn bfs<OF, J>(
+pub fn bfs<OF, J>(c: &Collector, seeds: &[Base], depth: usize, max_states: usize, ops_for: OF, judge: J) -> BfsStats
+where
+    OF: Fn(&Screen) -> Vec<Op> + Sync,
+    J: Fn(&Collector, &Trans, &mut Local) -> bool + Sync,
+{
+    bfs_nd(c, seeds, depth, max_states, ops_for, judge, |_| false)
+}
+
+/// BFS where the children produced by operations selected by `always_expand` are never merged
+/// with states seen before. The state key only covers the fields this harness knows about; an
+/// operation that is supposed to re-initialise everything (reset) is exactly where a cache or a
+/// field the key does not cover would be left stale, so its results are explored again.
+pub fn bfs_nd<OF, J, ND>(
     c: &Collector,
     seeds: &[Base],
     depth: usize,
     max_states: usize,
     ops_for: OF,
     judge: J,
+    always_expand: ND,
 ) -> BfsStats
 where
     OF: Fn(&Screen) -> Vec<Op> + Sync,
     J: Fn(&Collector, &Trans, &mut Local) -> bool + Sync,
+    ND: Fn(&Op) -> bool + Sync,
 {
     let t0 = std::time::Instant::now();
     let mut seen: HashSet<u128> = HashSet::new();
@@ -233,6 +247,7 @@ where
     }
     let mut levels = vec![frontier.len()];
     let mut capped = false;
+    let mut extra_states = 0usize;
     let mut deepest: Option<(usize, Vec<Op>)> = None;
     for d in 0..depth {
         if frontier.is_empty() {
@@ -269,7 +284,8 @@ where
                 let expand = judge(c, &t, &mut local);
                 if expand {
                     if let Ok((s, _, _)) = &outcome {
-                        out.push((full_key(s), oi as u32));
+                        // key 0 = "do not merge" marker (a real key of 0 has probability 2^-128)
+                        out.push((if always_expand(&op) { 0 } else { full_key(s) }, oi as u32));
                     }
                 }
             }
@@ -285,9 +301,12 @@ where
                     capped = true;
                     break 'outer;
                 }
-                if seen.insert(*k) {
+                if *k == 0 || seen.insert(*k) {
                     winners[i].push(*oi);
                     n_new += 1;
+                    if *k == 0 {
+                        extra_states += 1;
+                    }
                 }
             }
         }
@@ -343,6 +362,6 @@ where
     if std::env::var("VERIF_VERBOSE").is_ok() {
         eprintln!("[bfs] seeds={} levels={:?} states={} {:.1}s", seeds.len(), levels, seen.len(), t0.elapsed().as_secs_f64());
     }
-    c.add_states(seen.len() as u64);
+    c.add_states((seen.len() + extra_states) as u64);
     BfsStats { levels, states: seen.len(), capped }
 }
